@@ -130,6 +130,13 @@ def facts_vhd(rng):
     vf, info = enc_vhd.build(img, block_size=bs, P=n, size_bytes=size, original_size=orig,
                              footer_kw={"creator_app": rng.choice([b"vpc ", b"win ", b"qemu", b"vbox", b"d2v "]), "geometry": rng.choice([0x03FF103F, 0xFFFF10FF, 0]),
                                         "timestamp": rng.getrandbits(32), "uid": bytes(rng.randrange(256) for _ in range(16))})
+    if kind == "fixed" and rng.random() < 0.5:
+        # the guest's first sector holds the footer of some other disk (a nested image written raw): not this file's metadata
+        from harness.vfile import VirtualFile
+        foreign = enc_vhd.footer(size * 3 + 512, 3, 512, uid=b"\x77" * 16)
+        flen = 511 if img["foot511"] else 512
+        own = vf.peek_bytes(size, flen)
+        vf = VirtualFile(size + flen, [(0, 512, "bytes", foreign), (512, size - 512, "pat", 0), (size, flen, "bytes", own)]) if size > 512 else vf
     v = VHD(vf)
     f = [["size", size, v.size], ["current_size", size, v.disk.footer.current_size], ["original_size", orig, v.disk.footer.original_size],
          ["kind", kind, "dynamic" if hasattr(v.disk, "bat") else "fixed"]]
@@ -273,9 +280,14 @@ def facts_qcow2(rng):
     img["l2n"] = (1 << cb) // 8
     hlen = rng.choice([104, 104, 112])
     bfe = rng.random() < 0.6
+    nbm, bm_size, bm_off = rng.randrange(1, 65535), rng.choice([24, 4096, 1 << 33]), rng.choice([0x30000, (1 << 40) + 512, 7 << 16])
+    cr_off, cr_len = rng.choice([0x50000, 1 << 41]), rng.choice([512, 0x100000])
     ctype = 0 if hlen > 104 else None   # (zstd, type 1, needs a module that is not installed here)
     vf, dvf, info = enc_qcow2.build(img, cluster_bits=cb, K=1, backing_name=name, size_bytes=size, header_length=hlen, compression_type=ctype,
-                                    incompat_extra=(8 if ctype else 0), extra_ext=[(enc_qcow2.EXT_FEATURE_TABLE, bytes(range(48)))],
+                                    incompat_extra=(8 if ctype else 0),
+                                    # typed header extensions: feature table, bitmaps (nb, reserved, directory size, directory offset), crypto header (offset, length)
+                                    extra_ext=[(enc_qcow2.EXT_FEATURE_TABLE, bytes(range(48))), (0x23852875, struct.pack(">IIQQ", nbm, 0, bm_size, bm_off)),
+                                               (0x0537BE77, struct.pack(">QQ", cr_off, cr_len))],
                                     datafile_ext=True, backing_fmt_ext=bfe, end_marker=rng.random() < 0.8)
     q = QCow2(vf, data_file=dvf, backing_file=io.BytesIO(b"") if back else None)
     f = [["size", size, q.size], ["cluster_size", 1 << cb, q.cluster_size], ["backing_name", name if back else None, q.auto_backing_file],
@@ -283,6 +295,9 @@ def facts_qcow2(rng):
          ["feature_table", bytes(range(48)).hex(), (q.feature_table or b"").hex()], ["data_file_name", "data file.raw" if img["datafile"] else None, q.image_data_file]]
     # the compression method: stored in the byte behind a 104-byte header only if the header is longer than that
     f.append(["compression_type", ctype or 0, int(q.compression_type)])
+    bh, ch = q.bitmap_header, q.crypto_header
+    f.append(["bitmaps_ext", repr((nbm, bm_size, bm_off)), repr((int(bh.nb_bitmaps), int(bh.bitmap_directory_size), int(bh.bitmap_directory_offset))) if bh is not None else "None"])
+    f.append(["crypto_ext", repr((cr_off, cr_len)), repr((int(ch.offset), int(ch.length))) if ch is not None else "None"])
     return f
 
 
